@@ -112,6 +112,9 @@ def run_filler_check(ctx, PID, impl_oracle, proof_target, select=False):
     # the same histories with the value one level down in the metadata object, updated in place by the caller
     sub = [c for c in cases if any(op[0] == "M" for op in c["ops"])][:ctx.scale(120, 1200)]
     per_fmt["fb+nested"] = (sub, common.run_impl("filler_run.py", {"cases": sub, "format": "fb+nested", "select": select}, timeout=3000)["results"])
+    # ... and with the value accompanied by entries whose own values are falsy (0, False, "", None, [], 0.0): all of it is the metadata
+    sub2 = sub[:ctx.scale(60, 400)]
+    per_fmt["fb+falsy"] = (sub2, common.run_impl("filler_run.py", {"cases": sub2, "format": "fb+falsy", "select": select}, timeout=3000)["results"])
     # 1. property oracle on the implementation
     found = 0
     for fmt, (sub, rs) in per_fmt.items():
